@@ -493,7 +493,12 @@ class CompositeDataSource(DataSource):
             if ver is not None:
                 ver = _timestamp_sort_key(ver)
 
-            if stix_obj is None or ver is None or ver > latest_ver:
+            # (a member may hold the id without any version information, e.g.
+            # as an unvalidated dictionary: it is the answer only if no
+            # member has a version, whatever the order of the members)
+            if stix_obj is None or (
+                ver is not None and (latest_ver is None or ver > latest_ver)
+            ):
                 stix_obj = obj
                 latest_ver = ver
 
